@@ -111,13 +111,13 @@ PROPS.update({
         "Coq proof (invariant of the FIFO traversal w.r.t. an inductive labelling) + verified certificate checker on the real automaton + differential correspondence + occurrence oracle",
         ["c01", "pg01", "pgm"]),
     "C02": aut_prop("translation_validation",
-        "Strings: Theorem c02_string - for every automaton that passes wf_check, cert_complete and s_keys_tight, every host, every fuel and every "
-        "Ok result of the modelled breadth-first traversal (scope-restricted bindings, visited-set pruning by (state, view)), every occurrence of every "
-        "compiled non-empty pattern is in the returned list, bound at the position of the occurrence. The three checkers are evaluated by extracted code "
-        "on the dump of every automaton the real builder produces; the modelled traversal is compared with ManyMatcher::find_matches as exact sequences. "
-        "Matrices and port graphs: cert_complete is proved sound w.r.t. the abstract semantics (c02_matrix_partial, c02_portgraph_partial) and evaluated on "
-        "every dump; the step to the concrete traversal is decided by correspondence with the modelled traversal and the occurrence / embedding oracle "
-        "(port graphs: with the known host-side classes).",
+        "Strings and matrices: Theorems c02_string / c02_matrix - for every automaton that passes wf_check, cert_complete, keys_tight (and, matrices, "
+        "keys non-negative), every host, every fuel and every Ok result of the modelled breadth-first traversal (scope-restricted bindings, "
+        "visited-set pruning by (state, view)), every occurrence of every compiled pattern is in the returned list, bound at the position / anchor cell "
+        "of the occurrence. The checkers are evaluated by extracted code on the dump of every automaton the real builder produces; the modelled "
+        "traversal is compared with ManyMatcher::find_matches as exact sequences. Port graphs: cert_complete with proved entailment / refutation rules "
+        "(c02_portgraph_partial, abstract semantics) is evaluated on every dump; the step to the concrete traversal is decided by correspondence with the "
+        "modelled traversal and the embedding oracle, with the known host-side classes.",
         "Coq proof of run completeness from verified certificates (trace-closure of the BFS + AND-OR completeness certificate) evaluated on the real "
         "automaton + differential correspondence + occurrence oracle",
         ["c02", "pg02", "pgm"]),
